@@ -108,7 +108,7 @@ def check_c16(tier):
     for c in list(cases.values())[-2:]:
         rep.sample({"writer_case": c["kind"], "value": c["v"], "err": c["err"], "out": txt(c["out"])})
     # negative control
-    good = [c for c in cases.values() if not c["err"] and len(c["out"]) > 3][0]
+    good = [c for c in cases.values() if c["case"] not in rep.rejected_ids and not c["err"] and len(c["out"]) > 3][0]
     b1 = json.loads(json.dumps(good)); b1["case"] = "neg1"; b1["out"] = b1["out"][:-1]
     b2 = json.loads(json.dumps(good)); b2["case"] = "neg2"; b2["err"] = True
     p = os.path.join(wd, "neg.ndjson")
